@@ -26,6 +26,7 @@ def build_cmd_from_demo(path, old_root, new_root, demo_dir):
     cands = [l.strip() for l in joined if re.search(r"(?<!\w)(g\+\+|gcc|clang\+\+)(?![\w+])", l) and " -o" in l]
     if not cands: return None
     cmd = cands[0]
+    if "$" in cmd or cmd.rstrip().endswith("done") or ";" in cmd: return None   # part of a multi-line shell recipe: use the generic build
     cmd = cmd[re.search(r"(g\+\+|gcc|clang\+\+)", cmd).start():]
     cmd = cmd.replace(old_root + "/MUTATION", "@@MUT@@").replace(old_root, new_root).replace("@@MUT@@", os.path.dirname(demo_dir))
     return cmd
@@ -62,7 +63,7 @@ def main():
         res["demo_build_cmd"] = cmdw
         # shell demos: run a copy of the whole demo directory with the agent's worktree path replaced by the scratch one
         shdir = None
-        if cmdw is None:
+        if cmdw is None and demo.endswith(".sh"):
             shdir = os.path.join(scratch, "MUTATION", os.path.basename(mdir)); shutil.copytree(mdir, shdir)
             for fn in os.listdir(shdir):
                 fp = os.path.join(shdir, fn)
@@ -71,7 +72,25 @@ def main():
                     txt = txt.replace(old_root + "/MUTATION/" + os.path.basename(mdir), shdir).replace(old_root, scratch)
                     open(fp, "w").write(txt)
                 except Exception: pass
+        def generic_build():
+            """fallback: build the demo against every library source of the scratch tree"""
+            o = os.path.join(scratch, "_demo_o"); shutil.rmtree(o, ignore_errors=True); os.makedirs(o)
+            F = "-O1 -g -w -I%s/include -I%s/src/fitter -I/usr/include/suitesparse -DPHOTOSPLINE_INCLUDES_SPGLAM" % (scratch, scratch)
+            cmds = ["for f in %s/src/fitter/*.c; do gcc -std=gnu99 %s -c $f -o %s/$(basename $f).o || exit 1; done" % (scratch, F, o),
+                    "for f in %s/src/core/*.cpp %s/src/cinter/splinetable.cpp; do g++ -std=c++11 %s -c $f -o %s/$(basename $f).o || exit 1; done" % (scratch, scratch, F, o)]
+            if demo.endswith(".c"): cmds.append("gcc -std=gnu99 %s -c %s -o %s/demo_main.o" % (F, demo, o))
+            else: cmds.append("g++ -std=c++11 -fno-access-control %s -c %s -o %s/demo_main.o" % (F, demo, o))
+            cmds.append("g++ %s/*.o -o %s/demo -lcfitsio -lcholmod -lspqr -lsuitesparseconfig -lopenblas -lpthread -lm -ldl" % (o, o))
+            rb = sh(" && ".join(cmds), cwd=scratch)
+            return rb, os.path.join(o, "demo")
         def run_demo():
+            if cmdw is None and not demo.endswith(".sh"):
+                rb, exe = generic_build()
+                if rb.returncode != 0: return rb
+                try: return sh(exe, cwd=os.path.dirname(demo), timeout=900)
+                except subprocess.TimeoutExpired:
+                    class T: returncode = 124; stdout = "timeout"
+                    return T()
             if cmdw is None:
                 try: return sh("bash %s" % os.path.join(shdir, os.path.basename(demo)), cwd=shdir, timeout=900)
                 except subprocess.TimeoutExpired:
